@@ -153,14 +153,16 @@ def layout(node, cfg):
     for f in fields:
         if f.get("bits"):
             st = storage_of(f["t"])
+            # (char is a storage type of its own: it is read like uint8 but never shares a unit with it)
+            ukey = "char" if f["t"]["k"] == "char" else st
             usize = ALL_INTS[st][0]
             total = usize * 8
             if f["bits"] > total:
                 raise ModelReject("bit-field wider than its type")
-            if cur is None or cur[0] != st or cur[1] == 0:
+            if cur is None or cur[0] != ukey or cur[1] == 0:
                 if off is not None and cfg.align:
                     off = roundup(off, INT_ALIGN[usize])
-                cur = [st, total, off]
+                cur = [ukey, total, off]
                 units.append({"new": True, "st": st, "used": 0})
                 offsets.append(off)
                 if off is not None:
